@@ -94,12 +94,12 @@ def digest_type_params(compiler, tp):
        compiler._syntax_error(tp, "`:tp` requires Python 3.12 or later")
 
     return dict(type_params = [
-        asty.TypeVarTuple(x[1], name = mangle(x[1]))
+        asty.TypeVarTuple(x[1], name = mangle(compiler._nonconst(x[1])))
             if is_unpack("iterable", x) else
-        asty.ParamSpec(x[1], name = mangle(x[1]))
+        asty.ParamSpec(x[1], name = mangle(compiler._nonconst(x[1])))
             if is_unpack("mapping", x) else
         asty.TypeVar(x[0],
-               name = mangle(x[0]),
+               name = mangle(compiler._nonconst(x[0])),
                bound = x[1] and compiler.compile(x[1]).force_expr)
         for x in tp[0]])
 
